@@ -167,3 +167,6 @@ pub fn drive<F: Fn(&Case, &mut Out) + std::panic::RefUnwindSafe>(f: F) {
         writeln!(w, "end").unwrap();
     }
 }
+
+/// shared ConfigState driver of C05 / C06 / C07
+pub mod cfgstate;
